@@ -34,10 +34,13 @@ type mres struct {
 	// persistent kinds: value durably stored by the last committed section that wrote the cell ("" = never)
 	persist bool
 	stored  string
+	// persistent function-valued kinds: has any committed section written the variable (whole or indexed) yet?
+	// Once it has, the stored value must be the committed value; before, the store may be empty or hold the value
+	wroteEver bool
 }
 
 func (m *mres) clone() *mres {
-	c := &mres{cell: m.cell, in: append([]string(nil), m.in...), out: append([]string(nil), m.out...), persist: m.persist, stored: m.stored, list: append([]string(nil), m.list...)}
+	c := &mres{cell: m.cell, in: append([]string(nil), m.in...), out: append([]string(nil), m.out...), persist: m.persist, stored: m.stored, wroteEver: m.wroteEver, list: append([]string(nil), m.list...)}
 	if m.idx != nil {
 		c.idx = map[string]string{}
 		for k, v := range m.idx {
@@ -64,6 +67,12 @@ func (m *mres) render(cat string) string {
 		for _, k := range ks {
 			b.WriteString(k + "=" + m.idx[k] + ";")
 		}
+		if m.persist {
+			if m.wroteEver {
+				return b.String() + "|stored=" + b.String()
+			}
+			return b.String() + "|stored=?" // nothing need be stored yet (see acceptable)
+		}
 		return b.String()
 	case "counter":
 		return m.cell
@@ -75,6 +84,16 @@ func (m *mres) render(cat string) string {
 		return "delivered[" + strings.Join(m.out, ",") + "]"
 	}
 	return "?"
+}
+
+// acceptable tells whether an observed rendering satisfies the reference rendering want ("|stored=?" = either
+// nothing stored yet, or the current value).
+func acceptable(got, want string) bool {
+	if strings.HasSuffix(want, "|stored=?") {
+		base := strings.TrimSuffix(want, "|stored=?")
+		return got == base+"|stored=" || got == base+"|stored="+base
+	}
+	return got == want
 }
 
 // instance is one resource bound to the scripted archetype.
@@ -153,6 +172,10 @@ func idxKey(o gate2.Op) string {
 	}
 	return o.S
 }
+
+// persistentFnKinds: Persistent over a function-valued variable (whole and indexed writes), observed in memory and
+// in the database.
+var persistentFnKinds = []string{"persistent-fn", "persistent-shared-fn"}
 
 var quickKinds = []string{"local", "ilocal", "reflocal", "incmap", "hashmap", "inchan", "outchan", "shared"}
 var slowKinds = []string{"file", "persistent", "persistent-shared", "custominchan", "plog", "tcpout", "twopc", "crdt"}
@@ -388,6 +411,63 @@ func build(kind, name string, env *wenv) *instance {
 			return b.String(), nil
 		}
 		in.fin = func() { os.RemoveAll(dir) }
+	case "persistent-fn", "persistent-shared-fn":
+		in.cat = "map"
+		in.init = &mres{idx: map[string]string{"1": name + "_1_0", "2": name + "_2_0"}, persist: true}
+		initV := tla.MakeTuple(tla.MakeString(in.init.idx["1"]), tla.MakeString(in.init.idx["2"]))
+		db := openBadger(env)
+		env.seq++
+		pname := fmt.Sprintf("%s-%d-%d", name, env.w, env.seq)
+		var inMemory func(g *gate2.Gate) (tla.Value, error)
+		if kind == "persistent-fn" {
+			l := distsys.NewLocalArchetypeResource(initV)
+			wrap(resources.MakePersistent(pname, db.db, l))
+			inMemory = func(g *gate2.Gate) (tla.Value, error) { return localValue(g, l) }
+		} else {
+			mgr := resources.NewLocalSharedManager(initV, resources.WithLocalSharedResourceTimeout(20*time.Second))
+			wrap(resources.MakePersistent(pname, db.db, mgr.MakeLocalShared()))
+			obs := mgr.MakeLocalShared()
+			inMemory = func(*gate2.Gate) (tla.Value, error) {
+				if h, ok := any(mgr).(interface{ VerifLocked() bool }); ok && h.VerifLocked() {
+					return tla.Value{}, errLockHeld
+				}
+				b, err := obs.GetState()
+				if err != nil {
+					return tla.Value{}, err
+				}
+				return env.gobs.decode(b)
+			}
+		}
+		in.menu = []gate2.Op{opRI(name, 1), opWI(name, 1), opWI(name, 2), opW(name)}
+		in.valueOf = func(o gate2.Op) (tla.Value, bool) {
+			if o.I == nil && o.S == "" { // whole-variable write: a new function
+				return tla.MakeTuple(tla.MakeString(o.V+"a"), tla.MakeString(o.V+"b")), true
+			}
+			return tla.Value{}, false
+		}
+		renderFn := func(v tla.Value) string {
+			es := tupleStrings(v)
+			if len(es) != 2 {
+				return fmt.Sprintf("<%v>", v)
+			}
+			return "1=" + es[0] + ";2=" + es[1] + ";"
+		}
+		in.observe = func(g *gate2.Gate) (string, error) {
+			v, err := inMemory(g)
+			if err != nil {
+				return "", err
+			}
+			// what is really in the database under the wrapper's key
+			sv, found, err := db.readValue("pres-" + pname)
+			if err != nil {
+				return "", err
+			}
+			stored := ""
+			if found {
+				stored = renderFn(sv)
+			}
+			return renderFn(v) + "|stored=" + stored, nil
+		}
 	case "custominchan":
 		in.cat = "in"
 		in.init = &mres{}
